@@ -16,7 +16,10 @@ RULE = (
     "label set and of the supplied type attaining the maximal probability, score == fraction of "
     "matches) and recomputation oracles: the forest's probabilities / regressor predictions from "
     "its fitted trees on mean/std/slope of its fitted intervals, the column ensemble from its "
-    "fitted members (incl. 'drop' and empty-column members). non-trivial = >= 3 classes, or "
+    "fitted members (incl. 'drop' and empty-column members); forest panels at levels up to 1e7; "
+    "classifiers optionally fitted before on another problem; for the nearest-neighbour "
+    "dictionary classifiers renaming the classes in reverse sort order must reverse the "
+    "probability columns. non-trivial = >= 3 classes, or "
     "non-integer / non-contiguous labels, or an unbalanced set, or a dropped member; distinct = JSON"
 )
 ASSUMPTIONS = ["probabilities compared with atol 1e-9", "float labels are integral-valued (scikit-learn's accuracy_score, which score() delegates to, rejects continuous targets)", "forest features recomputed in float64 then cast to float32 as the forest does"]
